@@ -222,6 +222,8 @@ def emit(design, connect_order=None, connect_style=None, block_order=None):
       body = []
       emit_stmts(b["stmts"], 6, b["kind"], body, b.get("op"))
       L += body or ["      pass"]
+    if c.get("constraints"):
+      L.append("    s.add_constraints( " + ", ".join(c["constraints"]) + " )")
     if not c["signals"] and not c["children"]:
       L.append("    pass")
     L.append("")
@@ -399,12 +401,13 @@ DEFAULT_KNOBS = {"depth": 2, "max_children": 2, "p_struct": 0.25, "p_list": 0.15
 
 
 class Gen:
-  def __init__(self, rng, knobs=None):
+  def __init__(self, rng, knobs=None, design=None):
     self.rng = rng
     self.k = dict(DEFAULT_KNOBS)
     if knobs: self.k.update(knobs)
-    self.design = {"types": {}, "classes": {}, "order": [], "top": None}
-    self.ncls = 0
+    self.design = design if design is not None else {"types": {}, "classes": {}, "order": [], "top": None}
+    self.ncls = len(self.design["classes"])
+    while f"C{self.ncls}" in self.design["classes"]: self.ncls += 1
     self.by_depth = {}
 
   # -- types -----------------------------------------------------------------
@@ -554,8 +557,9 @@ class Gen:
     return self.leaf(1, srcs)
 
   # -- class -------------------------------------------------------------------
-  def gen_class(self, depth, is_top=False):
+  def gen_class(self, depth, is_top=False, fixed_ports=None):
     rng, k, d = self.rng, self.k, self.design
+    while f"C{self.ncls}" in d["classes"]: self.ncls += 1
     cname = f"C{self.ncls}"; self.ncls += 1
     cls = {"name": cname, "signals": [], "children": [], "connects": [], "blocks": []}
     # children first (their classes must be emitted before)
@@ -575,8 +579,15 @@ class Gen:
       sg = {"name": f"{prefix}{nid[0]}", "kind": kind, "type": t, "list": lst}; nid[0] += 1
       cls["signals"].append(sg)
       return sg
-    ins = [mk("InPort", "in_") for _ in range(rng.randrange(1, k["max_sigs"]))]
-    outs = [mk("OutPort", "out_") for _ in range(rng.randrange(1, k["max_sigs"]))]
+    if fixed_ports is not None:
+      # same interface as another class (C15: replacement components)
+      ins = [dict(sg) for sg in fixed_ports if sg["kind"] == "InPort"]
+      outs = [dict(sg) for sg in fixed_ports if sg["kind"] == "OutPort"]
+      cls["signals"] += ins + outs
+      nid[0] = 100
+    else:
+      ins = [mk("InPort", "in_") for _ in range(rng.randrange(1, k["max_sigs"]))]
+      outs = [mk("OutPort", "out_") for _ in range(rng.randrange(1, k["max_sigs"]))]
     wires = [mk("Wire", "w_") for _ in range(rng.randrange(0, k["max_sigs"] + 1))]
 
     def roots(sg):
@@ -673,6 +684,21 @@ class Gen:
         stmts += body
       cls["blocks"].append({"name": f"ff_{bi}", "kind": "ff", "stmts": stmts}); bi += 1
       i += n
+    # explicit constraints consistent with the dataflow order (comb blocks are numbered in rank order)
+    cls["constraints"] = []
+    ncomb = len(blocks)
+    if ncomb >= 2 and rng.random() < k.get("p_constraints", 0):
+      for _ in range(rng.randrange(1, 4)):
+        i = rng.randrange(ncomb - 1); j = rng.randrange(i + 1, ncomb)
+        whole = [p for (p, _) in blocks[i] if not p["steps"] and "." not in p["path"]]
+        kind = rng.randrange(3)
+        if kind == 0 or not whole:
+          cls["constraints"].append(f"U(up_{i}) < U(up_{j})")
+        elif kind == 1:
+          cls["constraints"].append(f"WR({ref_text(rng.choice(whole))}) < U(up_{j})")
+        else:
+          cls["constraints"].append(f"RD({ref_text(rng.choice(whole))}) > U(up_{i})")
+    cls["constraints"] = sorted(set(cls["constraints"]))
     d["classes"][cname] = cls
     d["order"].append(cname)
     self.by_depth.setdefault(depth, []).append(cname)
@@ -764,4 +790,33 @@ def top_inputs(design):
         out += [(f"s.{sg['name']}[{i}]", w) for i in range(sg["list"])]
       else:
         out.append((f"s.{sg['name']}", w))
+  return out
+
+
+def spec_replace(design, path, new_cname, tag):
+  """design' (deep copy) in which the instance at `path` (list of instance names from the top) is of class new_cname;
+  every ancestor class on the path is cloned under a fresh name so that other instances keep the old classes"""
+  import copy
+  d = copy.deepcopy(design)
+  chain = [d["top"]]
+  for iname in path[:-1]:
+    chain.append(dict(d["classes"][chain[-1]]["children"])[iname])
+  child = new_cname
+  for depth in range(len(path) - 1, -1, -1):
+    pc = copy.deepcopy(d["classes"][chain[depth]])
+    pc["name"] = f"{chain[depth]}_{tag}"
+    pc["children"] = [[i, (child if i == path[depth] else c)] for i, c in pc["children"]]
+    d["classes"][pc["name"]] = pc
+    d["order"].append(pc["name"])
+    child = pc["name"]
+  d["top"] = child
+  return d
+
+
+def instance_paths(design):
+  out = []
+  def walk(cn, path):
+    for iname, ccn in design["classes"][cn]["children"]:
+      out.append((path + [iname], ccn)); walk(ccn, path + [iname])
+  walk(design["top"], [])
   return out
